@@ -626,7 +626,11 @@ pub fn gen_world(rng: &mut Rng, opts: &WorldGenOpts) -> (WorldSpec, WorldRecords
 
     // ---- user lexicons ----
     let mut users = vec![];
-    let nu = rng.below(opts.max_users + 1);
+    let mut nu = rng.below(opts.max_users + 1);
+    if opts.max_users >= 2 && rng.chance(1, 12) {
+        // many user dictionaries: dictionary ids use 4 bits, 1..=14 are user dictionaries
+        nu = 8 + rng.below(7);
+    }
     for _u in 0..nu {
         let mut ul = LexSpec { entries: vec![] };
         let mut upool = pos_pool.clone();
@@ -864,10 +868,10 @@ pub fn gen_config(rng: &mut Rng, n: usize, full: bool) -> (Value, bool, bool) {
     let mut oov = vec![];
     if full || rng.chance(1, 3) {
         let id = rng.below(n);
-        let regex_pat = ["[a-z0-9]+(-[a-z0-9]+)*", "[a-z]+-[0-9]+", "[a-c]+[0-9]", "x[a-z0-9]*"][rng.below(4)];
+        let regex_pat = ["[a-z0-9]+(-[a-z0-9]+)*", "[a-z]+-[0-9]+", "[a-c]+[0-9]", "x[a-z0-9]*", "z+", "z+"][rng.below(6)];
         oov.push(json!({"class":"com.worksap.nlp.sudachi.RegexOovProvider",
             "leftId": id, "rightId": id, "cost": 2000 + rng.below(5000),
-            "regex": regex_pat, "maxLength": 4 + rng.below(30),
+            "regex": regex_pat, "maxLength": if rng.chance(1, 4) { 60 + rng.below(40) } else { 4 + rng.below(30) },
             "boundaries": if rng.chance(1,2) {"relaxed"} else {"strict"},
             "oovPOS": ["名詞", "普通名詞", "コード", "*", "*", "*"], "userPOS": "allow"}));
     }
@@ -878,6 +882,10 @@ pub fn gen_config(rng: &mut Rng, n: usize, full: bool) -> (Value, bool, bool) {
         let id = rng.below(n);
         oov.push(json!({"class":"com.worksap.nlp.sudachi.SimpleOovPlugin",
             "oovPOS": POS_SYM, "leftId": id, "rightId": id, "cost": 5000 + rng.below(20000)}));
+    }
+    // providers are consulted in the listed order and see what the earlier ones created
+    if rng.chance(1, 2) {
+        rng.shuffle(&mut oov);
     }
     let mut pr = vec![];
     if full || rng.chance(2, 3) {
@@ -964,8 +972,10 @@ pub fn gen_text(rng: &mut Rng, keys: &[String]) -> String {
             }
             18 => {
                 // long OOV run
-                let c = ["z", "ん", "ン", "漢", "7"][rng.below(5)];
-                for _ in 0..rng.below(70) {
+                let c = ["z", "ん", "ン", "漢", "7", "a"][rng.below(6)];
+                // word lengths around 64 characters (the width of the created-words mask) half of the time
+                let n = if rng.chance(1, 2) { rng.below(70) } else { 62 + rng.below(8) };
+                for _ in 0..n {
                     s.push_str(c);
                 }
             }
